@@ -21,9 +21,9 @@ KF_ID = "C08-reassociation"
 MAX_REPORTS = 5           # VIOLATION lines printed per phase (all failures are counted)
 
 TREE_CFGS = {
-    "quick": ["SyntaxGenD2.cfg", "SyntaxGenAtoms.cfg", "SyntaxGenD3q.cfg"],
+    "quick": ["SyntaxGenD2.cfg", "SyntaxGenAtoms.cfg", "SyntaxGenD3q.cfg", "SyntaxGenD3fld.cfg"],
     "thorough": ["SyntaxGenD2.cfg", "SyntaxGenAtoms.cfg", "SyntaxGenAtomsD2.cfg", "SyntaxGenD3ctx.cfg",
-                 "SyntaxGenD3a.cfg", "SyntaxGenD3b.cfg", "SyntaxGenD3c.cfg", "SyntaxGenD3d.cfg"],
+                 "SyntaxGenD3a.cfg", "SyntaxGenD3b.cfg", "SyntaxGenD3c.cfg", "SyntaxGenD3d.cfg", "SyntaxGenD3fld.cfg"],
 }
 STR_CFG = {"quick": "SyntaxGenStr.cfg", "thorough": "SyntaxGenStr8.cfg"}
 MODULES = {"quick": dict(gen=300, comments=5, template_comments=120), "thorough": dict(gen=3000, comments=60, template_comments=1500)}
